@@ -5,7 +5,7 @@ from vlib.unit import Unit, Lemma
 
 UNIT = Unit(
     name="pins_bar",
-    properties=["C01", "C03", "C04", "C05", "C06", "C18"],
+    properties=["C01", "C03", "C04", "C05", "C06", "C09", "C18"],
     prelude=[],
     trusted=["no function is verified in this unit: it only pins source text (specs/stub_baseline.json)"],
     items=[Lemma("pins_present", "()", ensures=[("pinned-api-glue-unchanged", "true")], body="{}", no_canary=True)],
